@@ -7145,7 +7145,7 @@ func setProtoTreasureToModel(treasure *hydraidepbgo.Treasure, field reflect.Valu
 				field.Set(reflect.ValueOf(decoded).Elem())
 			}
 
-		case reflect.Map, reflect.Ptr:
+		case reflect.Map, reflect.Ptr, reflect.Struct:
 			data := treasure.GetBytesVal()
 			decoded := reflect.New(field.Type()).Interface()
 
@@ -7449,6 +7449,23 @@ func convertFieldToKvPair(value reflect.Value, kvPair *hydraidepbgo.KeyValuePair
 				intVal := timeValue.UTC().Unix()
 				kvPair.Int64Val = &intVal
 			}
+		} else if encoding == EncodingMsgPack {
+			// any other struct value is stored like a pointer to it
+			encoded, encErr := msgpack.Marshal(value.Interface())
+			if encErr != nil {
+				err = fmt.Errorf("could not msgpack-encode struct value: %w", encErr)
+				break
+			}
+			kvPair.BytesVal = wrapMsgpack(encoded)
+		} else {
+			registerGobTypeIfNeeded(value.Interface())
+			var buf bytes.Buffer
+			encoder := gob.NewEncoder(&buf)
+			if encErr := encoder.Encode(value.Interface()); encErr != nil {
+				err = fmt.Errorf("could not GOB-encode struct value: %w", encErr)
+				break
+			}
+			kvPair.BytesVal = buf.Bytes()
 		}
 
 	// ❌ Any other unsupported type is rejected explicitly
